@@ -9,11 +9,12 @@ def cases(tier):
             cs.append({'CFG': cfg, 'MODE': 0, 'OP': op, 'K': 0})
         cs.append({'CFG': cfg, 'MODE': 1, 'OP': 0, 'K': 5 if tier == 'quick' else 8})
         cs.append({'CFG': cfg, 'MODE': 2, 'OP': 0, 'K': 0})
+        cs.append({'CFG': cfg, 'MODE': 3, 'OP': 0, 'K': 0})
     return cs
 
 PROPERTY = Property(
     'C12',
-    [Harness('c12_nq', NQ, 'harness/c12_nq.c', cases, unwind=12, timeout=600,
+    [Harness('c12_nq', NQ, 'harness/c12_nq.c', cases, unwind=16, timeout=600,
              description='real notification_queue vs. set model: inductive step from every representable state, bounded histories from reset, fairness within a level',
              bounds='priority partitions <3>,<1>,<5>,<1,2>,<2,1,1>,<4,3>; step: every state (pending bits, round-robin position, outstanding index, junk padding bits) x every operation; histories: K<=5 (quick) / 8 (thorough) symbolic operations from reset; fairness: 2*Size dequeues')],
     functions=['notification_queue::queue_notification', 'notification_queue::queue_indication', 'notification_queue::dequeue_indication_or_confirmation',
